@@ -36,7 +36,10 @@ class C11(ModelCheck):
             from rxsim.workload import skew
             case['events'], n = skew(rng, case['events'])
             case['skew'] = True
-            if rng.random() < 0.4:
+            if rng.random() < 0.2:
+                for ts in find_nodes(case['program'], lambda n: n['op'] == 'time_split'):
+                    ts['dt'] = 'np_arr0'          # timestamps that are mutable numbers (0-d numpy arrays)
+            elif rng.random() < 0.4:
                 # timestamps from an unsigned counter (numpy.uint64): with out-of-order items a difference of timestamps would wrap around
                 for ts in find_nodes(case['program'], lambda n: n['op'] == 'time_split'):
                     ts['dt'] = 'np_uint'
